@@ -16,6 +16,7 @@ DECIDES = ('the control points looked up at a parameter are span - degree + i, i
 NOT_DECIDED = 'the numerical values of ray parameters, convex hull output, voxel occupancy against sampled points, behaviour exactly on boundaries: numerical/geometric.'
 TECHNIQUE = 'polynomial identities, comparison-operator lattice, branch equivalence, reaching definitions, tolerance-forwarding rule'
 DECIDES += (' [ORDER TYPES, exact] WN2: wn_poly returns bool(sum over edges of [V_i.y <= P.y < V_i+1.y and P left] - [V_i+1.y <= P.y < V_i.y and P right]) for all 1215 (vertex-height order type, query height, side assignment) cases of a closed three-edge polygon; VX3 / AG52: voxelisation per element and serial = parallel (AL7 only corroborates).')
+DECIDES += (' CH2: linalg.convex_hull on every 3 .. 5 point subset of the 3 x 3 grid in three input orders and every 4-point set of the 4 x 4 grid in general position: all extreme points, boundary points only, once each, counter-clockwise.')
 DECIDES += (' KD5 / GV2: the 2-D view find_ctrlpts reads is the flat array at v + size_v * u; KD4: the voxel grid is laid over the bounding box of the unweighted control points.')
 
 
@@ -43,6 +44,7 @@ def check(m, run):
     from .. import skel_drivers as _sd
     n0 = len(run.obs)
     _sd.wn2(m, run)
+    _sd.ch2(m, run)        # the convex hull on every small point set, exact integers (collinear points and shared coordinates included)
     wn_ok = all(o.ok for o in run.obs[n0:])
     with run.corroborating(wn_ok, 'WN2', rules=('AL7.crossing-rule',)):
         al7(m, run)
